@@ -76,12 +76,17 @@ RULE = ("every priority assignment {0..n-1}^n (ties included) for n <= 4 (quick)
         "by the plugin), or HYBRID (a third of the nodes keep the generator's draw and go through the real insert_at, the others get a predicted draw -1 / +0 / +1 or a random value); "
         "a quarter of the histories (and every fifth exhaustive one, half of the empty-operand ones) run merge / split_at / split_by / collect through the public building blocks "
         "TreapNode::{merge, split_at, split_by, collect_into} on `t.root` instead of the Treap wrappers (collect_into appends to a vector that already holds an item); "
+        "ATTACH PATH OF A ROOT MODIFICATION, chosen per operation (cycling over case index + op index, so consecutive modifications of one history differ; no rng draw): "
+        "a third through the accessor `t.root_mut().unwrap().modify(..)`, a third through the PUBLIC FIELDS `t.root.as_mut().unwrap().item.modify(..)`, a third at node level "
+        "(`t.root` taken out, `node.item.modify(..)` on the raw Option<Box<TreapNode>> - the only handle for users of TreapNode::split_at / merge -, put back as the `root` "
+        "field of a new treap; two thirds in the histories that run through the building blocks) - in every family, so the modified root is a fresh node, a node that "
+        "split / merge / collect / insert / remove already pushed (every split result), with zero, one or two children; same observation (CMod) for all three; "
         "empty treaps come from Treap::new or Treap::default; every size / collect / root-aggregate observation also compares is_empty() with what it sees; "
         "histories are biased to the split-modify-merge pattern (range modify / range aggregate), sorted-set "
         "insertion through split_by, moves within one treap and between two live treaps (about 6% of the operations), boundary positions 0/len/len+1; non-trivial = a root modification on a treap with >= 2 "
         "elements is followed by a split/merge/insert/remove and then by an observation, or an item with a pending tag enters a non-empty treap and an observation follows")
 TRUSTED = ["executor harness/crates/c03 (drives rlib_treap::{Treap,TreapNode} through the public API; overwrites the public "
-           "priority field of new nodes; prints outputs, raw shapes and final collects; prints every field of an item returned by remove_at before "
+           "priority field of new nodes; attaches root modifications through root_mut(), through the public fields root / item, or on the raw root node taken out of the treap; prints outputs, raw shapes and final collects; prints every field of an item returned by remove_at before "
            "modifying it (move-and-update) and handing that same object to insert_at in a move; puts the process-wide priority generator back to its seed at the "
            "start of every line through the crate's hook verif_reset_priorities (cargo feature `verif`); its is_empty / collect_into consistency checks print a token "
            "that no model output equals)",
@@ -113,6 +118,36 @@ def lcg_prios(n, seed=42):
 # ----------------------------------------------------------------------------- python mirror of the list spec
 U32MAX = (1 << 32) - 1
 MODS_AT = {"F": 3, "I": 5, "V": 6}      # position of the optional list of caller-side modifications in an op
+
+
+# how a root modification ["U", i, "a"|"s", c, kind, path] is attached (op[5], absent = 0): 0 `t.root_mut().unwrap().modify(..)`;
+# 1 through the public fields, `t.root.as_mut().unwrap().item.modify(..)`; 2 at node level: `t.root` is taken out, the raw
+# Option<Box<TreapNode>> gets `node.item.modify(..)` and is put back (the only handle for users of TreapNode::split_at / merge).
+# Same Coq constructor (CMod), same observation.
+ATTACH_TOK = {0: "U", 1: "Uf", 2: "Un"}
+
+
+def attach_path(op):
+    return op[5] if len(op) > 5 else 0
+
+
+def with_attach_paths(cases):
+    """chooses the attach path of every root modification of the generated cases, per op, without drawing from the rng:
+    the paths cycle over (case index + op index), so that consecutive modifications of one history differ and every family
+    member of an exhaustive family sees all three over its neighbours; in a case that runs through the TreapNode building
+    blocks (`nodeapi`) two out of three are the node-level path"""
+    out = []
+    for ci, c in enumerate(cases):
+        ops = []
+        for oi, op in enumerate(c["ops"]):
+            if op[0] == "U" and len(op) == 5:
+                path = (ci + oi) % 3
+                if c.get("nodeapi") and path == 1:
+                    path = 2
+                op = op + [path]
+            ops.append(op)
+        out.append(dict(c, ops=ops))
+    return out
 
 
 def op_mods(op):
@@ -694,7 +729,7 @@ def generate(rng, tier):
         else:
             nops, maxel = hr.choice([6, 12, 25, 45, 80]), 60
         cases.append(gen_history(hr, nops, 2, mode, maxel, prebuild=hr.choice([0, 0, 4, 8, 14])))
-    return cases
+    return with_attach_paths(cases)
 
 
 # ----------------------------------------------------------------------------- printing
@@ -732,7 +767,7 @@ def harness_line(c):
         elif k == "I":
             toks.append("I:%d:%d:%d:%s%s" % (op[1], op[2], op[3], "n" if nat else op[4], ms(op)))
         elif k == "U":
-            toks.append("U:%d:%s:%d" % (op[1], op[2], op[3]))
+            toks.append("%s:%d:%s:%d" % (ATTACH_TOK[attach_path(op)], op[1], op[2], op[3]))
         elif k == "V":
             toks.append("V:%d:%d:%d:%d:%s%s" % (op[1], op[2], op[3], op[4], "n" if nat else op[5], ms(op)))
         elif nodeapi and k in ("M", "A", "B", "C"):
@@ -874,6 +909,10 @@ def shrink(c):
     for i in range(n):
         if op_mods(ops[i]):
             out.append(dict(c, ops=ops[:i] + [ops[i][:MODS_AT[ops[i][0]]]] + ops[i + 1:]))
+    # a root modification attached through the accessor instead of the public fields
+    for i in range(n):
+        if ops[i][0] == "U" and attach_path(ops[i]):
+            out.append(dict(c, ops=ops[:i] + [ops[i][:5]] + ops[i + 1:]))
     return out
 
 
